@@ -1112,9 +1112,13 @@ pub fn converge(rep: &mut Report, run: &mut RingRun, prop: &str, t_all_online: U
                 Err(e) => e,
                 Ok(()) => "token does not circulate in ascending order without retries".to_string(),
             };
+            let (class, extra) = match classify_stuck(run, t_all_online) {
+                Some((c, e)) => (c.to_string(), format!(" [{}]", e)),
+                None => (cfg.class.to_string(), String::new()),
+            };
             rep.violation(
-                format!("{}/not-converged/{}", prop, cfg.class),
-                format!("ring did not converge within the bound ({}us after T0 = {}us): {} ({})", bound, t_all_online, why, cfg.json().render()),
+                format!("{}/not-converged/{}", prop, class),
+                format!("ring did not converge within the bound ({}us after T0 = {}us): {}{} ({})", bound, t_all_online, why, extra, cfg.json().render()),
             );
             return None;
         }
@@ -1128,6 +1132,50 @@ pub fn converge(rep: &mut Report, run: &mut RingRun, prop: &str, t_all_online: U
             });
         }
     }
+}
+
+/// Two ways of being stuck have a recognisable mechanism of their own (DESIGN 7a, F16 and F17):
+///  * two stations, each alone in its own ring view, transmit in lockstep: every frame of each overlaps a
+///    frame of the other, so neither ever hears the other (no read-back of the own transmission);
+///  * a listening station holds undecodable receive data that begins with a start delimiter value, waits
+///    for the rest of that "telegram", and so never sees the status requests addressed to it.
+fn classify_stuck(run: &RingRun, t0: Us) -> Option<(&'static str, String)> {
+    let bus = run.world.bus.borrow();
+    // (a) lockstep: since T0 nearly every frame overlapped another one, and the overlapping frames are the
+    // traffic of stations that believe to be alone (tokens to themselves and GAP polls)
+    {
+        let since: Vec<&TxRec> = bus.trace.iter().filter(|f| f.start > t0).collect();
+        let collided: Vec<&&TxRec> = since.iter().filter(|f| f.collided).collect();
+        let senders: BTreeSet<usize> = collided.iter().map(|f| f.sender).collect();
+        let self_tokens = collided.iter().filter(|f| matches!(&f.decoded, Some(RTel::Token { sa, da }) if sa == da)).count();
+        if since.len() >= 30 && collided.len() * 10 >= since.len() * 8 && senders.len() >= 2 && self_tokens * 10 >= collided.len() * 3 {
+            let who: Vec<Option<u8>> = senders.iter().map(|p| run.addr_of_port(*p)).collect();
+            return Some((
+                "two-lone-token-holders-in-lockstep",
+                format!("{} of the {} frames since T0 overlapped another frame, {} of them tokens of a station to itself; stations {:?}", collided.len(), since.len(), self_tokens, who),
+            ));
+        }
+    }
+    // (b) misaligned listener
+    for st in run.world.stations.iter() {
+        if !st.running || st.fdl.is_in_ring() || st.fdl.verif_probe().state != "ListenToken" {
+            continue;
+        }
+        let rx = bus.peek_rx(st.phy.port);
+        let waits_for_more = !rx.is_empty() && [crate::refcodec::SD1, crate::refcodec::SD2, crate::refcodec::SD3, crate::refcodec::SD4].contains(&rx[0]) && matches!(crate::refcodec::decode(&rx), crate::refcodec::Dec::NeedMore | crate::refcodec::Dec::NeedMoreOrReject);
+        if !waits_for_more {
+            continue;
+        }
+        let polls = bus.trace.iter().filter(|f| f.start > t0 && !f.collided && matches!(&f.decoded, Some(RTel::Data { da, fc, .. }) if *da == st.addr && fc.is_req())).count();
+        let answers = bus.trace.iter().filter(|f| f.start > t0 && f.sender == st.phy.port).count();
+        if polls >= 3 && answers == 0 {
+            return Some((
+                "listener-waits-on-false-start-delimiter",
+                format!("#{} was polled {} times and never answered; its receive buffer holds {} (first byte is a start delimiter value, the decoder waits for more)", st.addr, polls, hex(&rx)),
+            ));
+        }
+    }
+    None
 }
 
 fn ring_fp(run: &RingRun) -> u64 {
